@@ -14,6 +14,7 @@ func installOracles(m *Monitors) {
 		&orC01{baseOracle: baseOracle{m}},
 		&orC03A{baseOracle: baseOracle{m}},
 		&orC06{baseOracle: baseOracle{m}},
+		&orC20{baseOracle: baseOracle{m}},
 	}
 }
 
